@@ -112,6 +112,17 @@ CLAIMED = {
               "handles stored inside const containers (noted in DESIGN.md)."),
         technique="who-may-write / check-dominates-use rules, const-cast inventory, value-origin (def-use) analysis over all instantiations",
         ref="DESIGN.md section 4 C07"),
+    "C08": dict(
+        text=("Decides that evaluation has no write access to the code it evaluates: every evaluation member of every class "
+              "derived from AST_Node (all instantiations) is const; node classes carry no mutable state besides atomic "
+              "location caches; outside constructors, chaiscript::parser and chaiscript::optimizer no field of a node is "
+              "written and no non-const member function of a node is called (hundreds of accesses classified, also through "
+              "shared_ptr-held function bodies captured by lambdas); const removal is inventoried by C07 R7.2; constants are "
+              "created const (C07 R7.8) and handed out by value; container literals build a fresh local container per "
+              "evaluation whose element values all pass through clone_if_necessary; `var x = e` and first assignment clone. "
+              "Not decided: equality of results of repeated calls on generated functions (follows from the above plus C07)."),
+        technique="class-hierarchy-wide const/mutable inventory, who-may-write rule over resolved accesses, def-use checks",
+        ref="DESIGN.md section 4 C08"),
 }
 
 NOT_YET = "check not built yet in this session (design in DESIGN.md section 4); will be claimed once its rules run clean both ways"
